@@ -52,15 +52,40 @@ def run(ctx):
         _c03.r6_ring(_Ren9(ctx, "C03.R6", "C20.R9"), facts, cfg)
 
 
+def registry_walk_loop(f, what):
+    """([loop], loop variable) of the walk over the registry: a range-for, or the same walk with iterators —
+    `for (auto it = v.begin()[, e = v.end()]; it != v.end() / e; ++it)`, the iterator advanced by the increment only"""
+    loops = [n for n in f.walk() if n["k"] == "CXXForRangeStmt" and is_this_field(strip(n.get("range")), "_thread_contexts")]
+    if loops:
+        return loops, loops[0]["loopvar"]["did"]
+    for n in [x for x in f.walk() if x["k"] == "ForStmt"]:
+        init, cond, inc = n.get("init"), strip(n.get("cond")), strip(n.get("inc"))
+        decls_ = ((init or {}).get("decls") or []) if isnode(init) else []
+        its = [d for d in decls_ if isnode(d.get("init")) and
+               any(is_call(x, r"std::vector<.*>::c?begin$") and is_this_field(call_obj(x), "_thread_contexts") for x in walk(d["init"]))]
+        ends = set(d["did"] for d in decls_ if isnode(d.get("init")) and
+                   any(is_call(x, r"std::vector<.*>::c?end$") and is_this_field(call_obj(x), "_thread_contexts") for x in walk(d["init"])))
+        if len(its) != 1:
+            continue
+        itv_ = its[0]["did"]
+        cond_ok = isnode(cond) and is_call(cond, r"operator!=") and \
+            any(any(y["k"] == "DeclRefExpr" and y.get("did") == itv_ for y in walk(a)) for a in cond["args"]) and \
+            any(any(is_call(x, r"std::vector<.*>::c?end$") and is_this_field(call_obj(x), "_thread_contexts") for x in walk(a)) or
+                any(y["k"] == "DeclRefExpr" and y.get("did") in ends for y in walk(a)) for a in cond["args"])
+        inc_ok = isnode(inc) and is_call(inc, r"operator\+\+") and any(y["k"] == "DeclRefExpr" and y.get("did") == itv_ for y in walk(inc))
+        moved = [x for x in walk(n.get("body")) if is_call(x, r"operator(\+\+|--|\+=|-=|=)$") and x.get("args") and var_ref(x["args"][0]) == itv_]
+        if cond_ok and inc_ok and not moved:
+            return [n], itv_
+    from rules.common import other_loop_over
+    other_loop_over(f, "_thread_contexts", what)
+    return [], None
+
+
 def registry_walks(ctx, facts, cfg):
     """the registry hands every context to the visitor; a removal erases exactly the context it was given"""
     fe = facts.need(TCM + "::for_each_thread_context", cfg)
     for f in fe[:3]:
-        loops = [n for n in f.walk() if n["k"] == "CXXForRangeStmt" and is_this_field(strip(n.get("range")), "_thread_contexts")]
-        if not loops:
-            from rules.common import other_loop_over
-            other_loop_over(f, "_thread_contexts", "for_each_thread_context")
-        lv = loops[0]["loopvar"]["did"]
+        loops, lv = registry_walk_loop(f, "for_each_thread_context")
         cbp = f.rec["params"][0]["did"]
         calls = [c for c in f.calls() if c["k"] == "CXXOperatorCallExpr" and var_ref(c["args"][0]) == cbp and
                  any(x["k"] == "DeclRefExpr" and x.get("did") == lv for a in c["args"][1:] for x in walk(a))]
@@ -376,10 +401,7 @@ def r5(ctx, facts, cfg):
            "when told to reload, the backend clears its cache and re-adds every registered context (none is skipped)", fn=up)
     fe_f = facts.need(TCM + "::for_each_thread_context", cfg)
     for x in fe_f[:1]:
-        loops = [n for n in x.walk() if n["k"] == "CXXForRangeStmt" and is_this_field(strip(n.get("range")), "_thread_contexts")]
-        if not loops:
-            from rules.common import other_loop_over
-            other_loop_over(x, "_thread_contexts", "ThreadContextManager::for_each_thread_context")
+        loops, _lv = registry_walk_loop(x, "ThreadContextManager::for_each_thread_context")
         early = [e for lp in loops for e in walk(lp.get("body")) if e["k"] in ("BreakStmt", "ReturnStmt", "ContinueStmt")]
         ctx.ob("C20.R5e", "ThreadContextManager::for_each_thread_context:visits-all", bool(loops) and not early and bool(lock_positions(x)),
                "the registry walk visits every context, under the lock", fn=x)
